@@ -468,7 +468,7 @@ def op_unit(name, cases):
                         # operations on a finalized iterator are rejected without changing state
                         ok = kind == "raise" and val.cls == "FinalizedIteratorError"
                         eng.oblige("closed:rejected-with-FinalizedIteratorError,state-unchanged", s, And(ok, same_state(W, s, snap)), prop="C10", kind="exit")
-                        eng.oblige("closed:rejected-with-FinalizedIteratorError,state-unchanged(C08)", s, And(ok, same_state(W, s, snap)), prop="C08", kind="exit")
+                        eng.oblige("closed:rejected-with-FinalizedIteratorError,state-unchanged(C08)", s, And(ok, same_state(W, s, snap)), prop="C08", kind="exit", replay="C10.faults")
                         continue
                     check(eng, kind, val, s, snap)
                     wr = [x for x in s.ghost.get("writes", []) if x[0] == W.renderable.id]
@@ -600,34 +600,40 @@ def padding_cases():
 
 def args_cases():
     out = []
-    for kind in ("same-class", "parent-class", "incompatible"):
+    # the args' render class relative to the renderable's class: compatible iff it is that class or one of its parents
+    # (C16); a proper SUBCLASS of the renderable's class, like an unrelated class, is incompatible
+    for kind in ("same-class", "parent-class", "incompatible", "incompatible:child-class"):
         def setup(W, eng, st, kind=kind):
-            cls = ClassV("MyRenderable") if kind == "same-class" else ClassV("OtherRenderable")
+            incompatible = kind.startswith("incompatible")
+            cname = {"same-class": "MyRenderable", "parent-class": "ParentRenderable", "incompatible": "OtherRenderable",
+                     "incompatible:child-class": "ChildRenderable"}[kind]
+            eng.classes.update({"ParentRenderable": ("Renderable",), "MyRenderable": ("ParentRenderable",), "OtherRenderable": ("Renderable",),
+                                "ChildRenderable": ("MyRenderable",)})
+            cls = ClassV(cname)
             ra = st.new("RenderArgs", {"render_cls": cls, "aid": z3.Int("new_args")})
             CONV = z3.Function("convert_args", I, I)
 
             def new_ra(e, s, c, a, k):
                 # RenderArgs(render_cls, init): C16 contract - accepted iff compatible, otherwise IncompatibleRenderArgsError
-                if kind == "incompatible":
+                if incompatible:
                     e.raise_(ExcVal("IncompatibleRenderArgsError"), e.fork(s))
                     return []
                 s = e.fork(s)
                 return [(s.new("RenderArgs", {"render_cls": a[0], "aid": CONV(s.H(a[1])["aid"])}), s)]
             eng.methods["new:RenderArgs"] = new_ra
             eng.genv["type"] = Fn(lambda e, s, a, k: [(ClassV(a[0].cls) if isinstance(a[0], Ref) else None, s)])
-            import pyvc.engine as _E
 
             def check(eng, k, val, s, snap):
                 it = s.H(W.self_)
                 if k == "raise":
-                    eng.oblige("incompatible:rejected,state-unchanged", s, And(kind == "incompatible", val.cls == "IncompatibleRenderArgsError", same_state(W, s, snap)), prop="C08", kind="raise")
+                    eng.oblige("incompatible:rejected,state-unchanged", s, And(incompatible, val.cls == "IncompatibleRenderArgsError", same_state(W, s, snap)), prop="C08", kind="raise")
                     return
                 got = it["_render_args"]
                 if kind == "same-class":
                     ok = got is ra
                 else:
                     ok = isinstance(got, Ref) and s.H(got)["render_cls"].name == "MyRenderable" and Eq(s.H(got)["aid"], CONV(z3.Int("new_args")))
-                eng.oblige("args-applied(converted-to-the-renderable-class)", s, And(kind != "incompatible", ok, same_state(W, s, snap, ("args",))), prop="C08", kind="post")
+                eng.oblige("args-applied(converted-to-the-renderable-class)", s, And(not incompatible, ok, same_state(W, s, snap, ("args",))), prop="C08", kind="post")
             return dict(render_args=ra), check
         out.append((kind, setup))
     return out
@@ -666,6 +672,43 @@ def u_close(ctx):
             eng.oblige("closed-afterwards,generator-closed,references-dropped", s,
                        And(it["_closed"] is True, s.H(W.gen)["closed"] is True, "_iterator" not in it, "_render_data" not in it), kind="post")
             eng.oblige("data-finalized-iff-owned(exactly-once)", s,
+                       And(to_z3(rd["finalized"]) == z3.Or(fin0, owns), rd["fin_calls"] == z3.If(z3.And(owns, z3.Not(fin0)), 1, 0)), kind="post")
+        obs += eng.obligations
+    return obs
+
+
+@unit("C10", "_iterator:RenderIterator.__del__")
+def u_del(ctx):
+    """garbage collection: the same effect on the render data as close() (finalized iff owned, exactly once), whoever else
+    still refers to the data; silent for an instance whose construction failed before it had any state"""
+    obs = []
+    for state in ("open", "closed", "uninitialised"):
+        eng = ctx.engine(f"C10/__del__[{state}]", "C10")
+        st = State()
+        W = World(ctx, eng, st, closed=(state == "closed"))
+        if state == "uninitialised":
+            st.heap[W.self_.id] = {}
+        st.env["self"] = W.self_
+        snap = snapshot(W, st) if state != "uninitialised" else None
+        close_node = inline(ctx.fn(IT, "RenderIterator.close"), eng)
+        eng.methods[("RenderIterator", "close")] = lambda e, s, recv, a, k, close_node=close_node: e.call(close_node, (recv,), {}, s)
+        outs = run_function(eng, ctx.fn(IT, "RenderIterator.__del__"), st)
+        for kind, val, s in outs:
+            it, rd = s.H(W.self_), s.H(W.render_data)
+            if kind == "raise":
+                eng.oblige(f"no-exception:{val.cls}", s, False, kind="raise")
+                continue
+            if state == "uninitialised":
+                eng.oblige("unsuccessful-init:__del__-is-silent,data-untouched", s, And(Eq(rd["fin_calls"], 0)), kind="post")
+                continue
+            if state == "closed":
+                eng.oblige("closed-before:collection-changes-nothing", s, same_state(W, s, snap), kind="post")
+                continue
+            owns = to_z3(s.H(W.self_)["_finalize_data"])
+            fin0 = to_z3(snap["fin"])
+            eng.oblige("collected:closed,generator-closed,references-dropped", s,
+                       And(it["_closed"] is True, s.H(W.gen)["closed"] is True, "_iterator" not in it, "_render_data" not in it), kind="post")
+            eng.oblige("collected:data-finalized-iff-owned(exactly-once),whoever-else-holds-the-data", s,
                        And(to_z3(rd["finalized"]) == z3.Or(fin0, owns), rd["fin_calls"] == z3.If(z3.And(owns, z3.Not(fin0)), 1, 0)), kind="post")
         obs += eng.obligations
     return obs
